@@ -244,16 +244,21 @@ Definition m_where (s : st) (e : uexpr) : option st :=
   | None => None
   end.
 
+Definition m_item (f : ref -> rres) (it : uexpr * string) : option item :=
+  match fst it with
+  | UCol (RName nm) => Some (IName nm)                 (* a bare name on its own: resolved by counting occurrences *)
+  | e => option_map (fun e' => IExpr e' (snd it)) (resolve_uexpr f e)
+  end.
+
 Definition m_select (s : st) (items : list (uexpr * string)) : option st :=
   let n := List.length (s_tabs s) in
   let has_joins := negb (Nat.eqb n 1) in
   let tcs := order_of (s_first_right s) (s_tabs s) in
-  match map_opt (fun it => match fst it with
-                           | UCol (RName nm) => Some (IName nm)
-                           | e => option_map (fun e' => IExpr e' (snd it))
-                                             (resolve_uexpr (norm_after_ref (s_ctes s) has_joins n tcs) e)
-                           end) items with
-  | Some its => Some (mkSt (s_tabs s) (s_bases s) (s_joins s) (s_ctes s) (s_first_right s) (resolve_items tcs [] its) (s_where s))
+  match map_opt (m_item (norm_after_ref (s_ctes s) has_joins n tcs)) items with
+  | Some its =>
+      (* the output names are the aliases the user gave (a bare name without alias keeps its own name) *)
+      Some (mkSt (s_tabs s) (s_bases s) (s_joins s) (s_ctes s) (s_first_right s)
+                 (combine (map fst (resolve_items tcs [] its)) (map snd items)) (s_where s))
   | None => None
   end.
 
@@ -362,9 +367,11 @@ Definition sp_where (p : sp) (e : uexpr) : option sp :=
   | None => None
   end.
 
+Definition sp_item (valid : ref -> bool) (out : list (expr * string)) (it : uexpr * string) : option (expr * string) :=
+  option_map (fun e' => (e', snd it)) (sp_uexpr valid out (fst it)).
+
 Definition sp_select (p : sp) (items : list (uexpr * string)) : option sp :=
-  match map_opt (fun it => option_map (fun e' => (e', snd it))
-                                      (sp_uexpr (ref_valid (p_tabs p) (p_bases p) (p_out p)) (p_out p) (fst it))) items with
+  match map_opt (sp_item (ref_valid (p_tabs p) (p_bases p) (p_out p)) (p_out p)) items with
   | Some out => Some (mkSp (p_tabs p) (p_bases p) (p_joins p) out (p_where p))
   | None => None
   end.
